@@ -1049,7 +1049,20 @@ pub fn crowd_check(seed: u64, n: usize, rounds: usize) -> Vec<Fail> {
     let mut counts: BTreeMap<u32, u32> = BTreeMap::new();
     let mut fails = vec![];
     // (every third address belongs to one block of consecutive addresses: a fleet)
-    let addrs: Vec<u32> = (0..n as u32).map(|i| if i % 3 == 0 { 0x300000 + i } else { 0x100000 + i * 0x1003 + (i % 7) }).collect();
+    // (all distinct as 24-bit addresses, whatever n is)
+    let addrs: Vec<u32> = {
+        let mut seen = std::collections::BTreeSet::new();
+        let mut v = Vec::with_capacity(n);
+        let mut i = 0u32;
+        while v.len() < n {
+            let a = (if i % 3 == 0 { 0x300000 + i } else { 0x100000u32.wrapping_add(i.wrapping_mul(0x1003)).wrapping_add(i % 7) }) & 0xff_ffff;
+            if seen.insert(a) {
+                v.push(a);
+            }
+            i += 1;
+        }
+        v
+    };
     for round in 0..rounds {
         for _ in 0..n {
             let a = if round == 0 { addrs[counts.len().min(n - 1)] } else { *rng.pick(&addrs) };
@@ -1102,7 +1115,8 @@ pub fn crowd_positions_check(seed: u64, n: usize) -> Vec<Fail> {
     let mut fails = vec![];
     let mut truth: BTreeMap<u32, (f64, f64, u16)> = BTreeMap::new();
     let mut first_place: BTreeMap<u32, (f64, f64)> = BTreeMap::new();
-    let addr = |i: usize| if i % 2 == 0 { 0x400000 + i as u32 } else { 0x200000 + (i as u32) * 0x0205 + (i as u32 % 3) };
+    // distinct 24-bit addresses for every n up to 2^20: a block of consecutive ones and a spread
+    let addr = |i: usize| if i % 2 == 0 { 0x400000 + i as u32 } else { 0x800000 + (i as u32) * 0x7 + 1 };
     let report = |a: u32, p: (f64, f64), parity: u32, altc: u16, df18: bool| {
         let e = refcpr::encode(p.0, p.1, parity);
         let mut me = [0u8; 7];
